@@ -14,6 +14,9 @@ static const int DT[] = {KALIGN_TYPE_UNDEFINED, KALIGN_TYPE_DNA, KALIGN_TYPE_DNA
 static const int PT[] = {KALIGN_TYPE_UNDEFINED, KALIGN_TYPE_PROTEIN, KALIGN_TYPE_PROTEIN_DIVERGENT};
 #define NMANY 48        /* 20..99-sequence sets built from few distinct sequences */
 #define NFRAG 30        /* a very long duplicated sequence plus short, almost-contained fragments (one edit each) */
+#define NAMP 24         /* duplicated sequence plus two relatives that share a long verbatim prefix with it and carry a pseudo tandem
+                           duplication on opposite sides of one block: copies that are not joined first get different gap positions */
+#define NAMP2 4         /* the same with a 9000-residue duplicated sequence and 100-residue near-fragments (3 inserted residues) */
 #define NLONG 96         /* long duplicated sequence plus shorter relatives at substring edit distance exactly 256 / 512 */
 
 static const struct fam* fams(int tier, int* n)
@@ -35,7 +38,7 @@ uint64_t vh_total(int tier)
         for(i = 0; i < n; i++){
                 t += fsize(&F[i]);
         }
-        return t + NMANY + NLONG + NFRAG;
+        return t + NMANY + NLONG + NFRAG + NAMP + NAMP2;
 }
 
 struct dcase { struct kx_set in; int type; int protein; int many; };
@@ -62,6 +65,84 @@ static void decode(uint64_t id, int tier, struct dcase* c)
                         return;
                 }
                 id -= sz;
+        }
+        if(id >= NMANY + NLONG + NFRAG + NAMP){
+                int k = (int)(id - NMANY - NLONG - NFRAG - NAMP);
+                int L = 9000, layout = k & 1, protein = 1, at = 3000 + 700 * k, o;
+                uint64_t st = 31337 + (uint64_t)k + (uint64_t)vh_seed;
+                static char A[9100], X[160], Y[160];
+                const char* alpha = (k & 2) ? "LKWAVDEGSTNQRHFYMICP" : "LKWAVDEGST";
+                c->many = 4000 + k;
+                c->protein = protein;
+                c->type = KALIGN_TYPE_UNDEFINED;
+                sh_random_seq(&st, alpha, L, A);
+                memcpy(A + at + 50, "WDE", 3);
+                memcpy(X, A + at, 100);
+                X[100] = 0;
+                memcpy(Y, A + at + 35, 100);    /* staggered: the two fragments overlap in 65 residues only, so they are far from each other */
+                Y[100] = 0;
+                /* X = ..WDE WEE..  Y = ..WEE WDE..  (three inserted residues resembling the block next to them) */
+                o = 53;
+                memmove(X + o + 3, X + o, strlen(X + o) + 1);
+                memcpy(X + o, "WEE", 3);
+                o = 15;
+                memmove(Y + o + 3, Y + o, strlen(Y + o) + 1);
+                memcpy(Y + o, "WEE", 3);
+                if(layout == 0){
+                        kx_set_add(&c->in, A, "dupA_1");
+                        kx_set_add(&c->in, X, "fragX");
+                        kx_set_add(&c->in, A, "dupA_2");
+                        kx_set_add(&c->in, Y, "fragY");
+                }else{
+                        kx_set_add(&c->in, Y, "fragY");
+                        kx_set_add(&c->in, A, "dupA_1");
+                        kx_set_add(&c->in, A, "dupA_2");
+                        kx_set_add(&c->in, X, "fragX");
+                }
+                return;
+        }
+        if(id >= NMANY + NLONG + NFRAG){
+                static const int LL[3] = {129, 320, 600};
+                int k = (int)(id - NMANY - NLONG - NFRAG);
+                int L = LL[k % 3], protein = (k / 3) & 1, layout = (k / 6) & 1, far = (k / 12) & 1;
+                int P = far ? (L >= 320 ? 258 : L - 60) : (2 * L) / 3, q, t;
+                uint64_t st = 60606 + (uint64_t)k + (uint64_t)vh_seed;
+                static char A[700], X[700], Y[700], B2[16];
+                const char* alpha = protein ? "LKWAVDEGSTNQRHFYMICP" : "ACGT";
+                int sigma = (int)strlen(alpha);
+                c->many = 3000 + k;
+                c->protein = protein;
+                c->type = KALIGN_TYPE_UNDEFINED;
+                sh_random_seq(&st, alpha, L, A);
+                memcpy(B2, A + P, 12);
+                B2[12] = 0;
+                for(q = 2; q < 12; q += 4){
+                        const char* at = strchr(alpha, B2[q]);
+                        B2[q] = alpha[((int)(at - alpha) + 1 + (q % 3)) % sigma];
+                }
+                /* X = A[0..P+12) B' A[P+12..L-20) ; Y = A[0..P) B' A[P..L-22) : the insertion sits inside a verbatim stretch, after B in X, before B in Y */
+                memcpy(X, A, (size_t)P + 12);
+                memcpy(X + P + 12, B2, 12);
+                t = L - 20 - (P + 12);
+                memcpy(X + P + 24, A + P + 12, (size_t)t);
+                X[P + 24 + t] = 0;
+                memcpy(Y, A, (size_t)P);
+                memcpy(Y + P, B2, 12);
+                t = L - 22 - P;
+                memcpy(Y + P + 12, A + P, (size_t)t);
+                Y[P + 12 + t] = 0;
+                if(layout == 0){
+                        kx_set_add(&c->in, A, "dupA_1");
+                        kx_set_add(&c->in, A, "dupA_2");
+                        kx_set_add(&c->in, X, "relX");
+                        kx_set_add(&c->in, Y, "relY");
+                }else{
+                        kx_set_add(&c->in, X, "relX");
+                        kx_set_add(&c->in, A, "dupA_1");
+                        kx_set_add(&c->in, Y, "relY");
+                        kx_set_add(&c->in, A, "dupA_2");
+                }
+                return;
         }
         if(id >= NMANY + NLONG){
                 /* A (2600..4200 residues) twice + two ~100-residue fragments of it, each with one inserted residue at a different
